@@ -342,8 +342,11 @@ CLAIM = {
             'ArgumentContainer::findArg: a definition is refused exactly when its short or long key is taken, an exact '
             'key selects its own argument for every permutation of the definitions, a proper prefix selects an '
             'argument iff abbreviations are on and exactly one long key starts with it (else ambiguous / unknown), '
-            'independent of order. The pinned findArg is proved order dependent (C05_pinned_findArg_refuted) and was '
-            'repaired. Model tied to the code by correspondence through the real Handler.',
+            'independent of order; look-ups between the definitions have no memory (C05_lookup_has_no_memory, '
+            'C05_staged_exact_key_order_independent); no word is the exact key of a plain and of a sub-group argument '
+            '(C05_subgroup_key_one_argument; the pinned tree accepted such definitions - repaired). The pinned findArg is '
+            'proved order dependent (C05_pinned_findArg_refuted) and was repaired. Model tied to the code by '
+            'correspondence through the real Handler (definitions, look-ups through getArgHandler, evaluation).',
     'note': 'trusted: Coq kernel, extraction, hand-written model validated by correspondence on every run, the '
             'word-to-key step of the driver; one-letter long keys are outside the generated family',
     'technique': 'Coq proof (pairwise table invariant, permutation invariance, induction over the table scan); '
